@@ -1,0 +1,109 @@
+//! C39: the signed-packet store over a caller-supplied redb storage backend,
+//! the evict task's `CheckExpired` message, a dump of both tables, the storage
+//! format functions, and a clock for the store's actor thread.
+//!
+//! Added guarded statements: `sync_clock()` at the top of
+//! `Actor::handle_message`; module `verif_c39` in `store/signed_packets.rs`
+//! (re-exported from `store.rs`).
+
+use std::{
+    sync::{
+        Arc,
+        atomic::{AtomicU64, Ordering},
+    },
+    time::Duration,
+};
+
+use iroh_dns::pkarr::{SignedPacket, Timestamp};
+pub use redb::{StorageBackend, backends::InMemoryBackend};
+
+use crate::{
+    metrics::Metrics,
+    store::{Options, verif_c39},
+    util::PublicKeyBytes,
+};
+
+static CLOCK: AtomicU64 = AtomicU64::new(0);
+
+/// Sets the reading of `Timestamp::now` on the store's actor thread (0 = real clock).
+pub fn set_actor_clock(micros: u64) {
+    CLOCK.store(micros, Ordering::SeqCst);
+}
+
+/// Called by the actor before it handles a message.
+pub(crate) fn sync_clock() {
+    let v = CLOCK.load(Ordering::SeqCst);
+    if v == 0 {
+        iroh_dns::verif_hooks::c33::set_clock(None);
+    } else {
+        iroh_dns::verif_hooks::c33::set_clock(Some(v));
+        // `now()` returns max(clock, last + 1): make it return exactly `v`
+        iroh_dns::verif_hooks::c33::set_last(0);
+    }
+}
+
+/// `(signed-packets rows, update-time rows)`.
+pub type Dump = (Vec<([u8; 32], Vec<u8>)>, Vec<(u64, [u8; 32])>);
+
+#[derive(Debug)]
+pub struct Store(verif_c39::Store);
+
+impl Store {
+    /// Opens the store (`SignedPacketStore::open`) over `backend`.
+    /// Must be called inside a tokio runtime.
+    pub fn open(
+        backend: impl StorageBackend,
+        max_batch_size: usize,
+        max_batch_time: Duration,
+        eviction: Duration,
+        eviction_interval: Duration,
+    ) -> Result<Self, String> {
+        let options = Options {
+            max_batch_size,
+            max_batch_time,
+            eviction,
+            eviction_interval,
+        };
+        verif_c39::Store::open_with_backend(backend, options, Arc::new(Metrics::default()))
+            .map(Store)
+            .map_err(|e| format!("{e:#}"))
+    }
+
+    pub async fn upsert(&self, packet: SignedPacket) -> Result<bool, String> {
+        self.0.upsert(packet).await.map_err(|e| format!("{e:#}"))
+    }
+
+    pub async fn get(&self, key: &[u8; 32]) -> Result<Option<SignedPacket>, String> {
+        self.0
+            .get(&PublicKeyBytes::new_unchecked(*key))
+            .await
+            .map_err(|e| format!("{e:#}"))
+    }
+
+    pub async fn check_expired(&self, time: u64, key: &[u8; 32]) -> Result<(), String> {
+        self.0
+            .check_expired(Timestamp::from_micros(time), PublicKeyBytes::new_unchecked(*key))
+            .await
+            .map_err(|e| format!("{e:#}"))
+    }
+
+    pub async fn dump(&self) -> Result<Dump, String> {
+        self.0.dump().await.map_err(|e| format!("{e:#}"))
+    }
+}
+
+pub fn serialize(packet: &SignedPacket) -> Vec<u8> {
+    verif_c39::serialize(packet)
+}
+
+pub fn deserialize(data: &[u8]) -> Result<SignedPacket, String> {
+    verif_c39::deserialize(data).map_err(|e| format!("{e:#}"))
+}
+
+pub fn preload(
+    backend: impl StorageBackend,
+    packets: &[([u8; 32], Vec<u8>)],
+    times: &[(u64, [u8; 32])],
+) -> Result<(), String> {
+    verif_c39::preload(backend, packets, times).map_err(|e| format!("{e:#}"))
+}
